@@ -35,21 +35,15 @@ pub fn compact(v: u128) -> ([u8; 17], usize) {
 		o[3] = ((x >> 24) & 0xff) as u8;
 		(o, 4)
 	} else {
-		// number of bytes up to and including the most significant non-zero one
-		let mut n = 4usize;
-		let mut i = 4usize;
-		while i < 16 {
-			if (v >> (8 * i)) & 0xff != 0 {
-				n = i + 1;
-			}
-			i += 1;
-		}
+		// number of bytes up to and including the most significant non-zero one (loop-free so
+		// that harness unwind bounds need not cover it)
+		let n: usize = if v >> 120 != 0 { 16 } else if v >> 112 != 0 { 15 } else if v >> 104 != 0 { 14 }
+			else if v >> 96 != 0 { 13 } else if v >> 88 != 0 { 12 } else if v >> 80 != 0 { 11 }
+			else if v >> 72 != 0 { 10 } else if v >> 64 != 0 { 9 } else if v >> 56 != 0 { 8 }
+			else if v >> 48 != 0 { 7 } else if v >> 40 != 0 { 6 } else if v >> 32 != 0 { 5 } else { 4 };
 		o[0] = 3 | (((n - 4) as u8) << 2);
-		let mut k = 0;
-		while k < n {
-			o[1 + k] = ((v >> (8 * k)) & 0xff) as u8;
-			k += 1;
-		}
+		macro_rules! put { ($($k:literal)*) => { $( if $k < n { o[1 + $k] = ((v >> (8 * $k)) & 0xff) as u8; } )* } }
+		put!(0 1 2 3 4 5 6 7 8 9 10 11 12 13 14 15);
 		(o, n + 1)
 	}
 }
@@ -114,25 +108,66 @@ pub fn compact_decode(b: &[u8], w: u32) -> Option<(u128, usize)> {
 // cursor + trait
 
 pub struct Cur<'a> {
+	/// concrete prefix bytes (count prefix served by value, see io::Pre), then the payload
+	pub pre: [u8; 5],
+	pub np: usize,
 	pub b: &'a [u8],
+	/// position over prefix ++ payload
 	pub p: usize,
 }
 impl<'a> Cur<'a> {
 	pub fn new(b: &'a [u8]) -> Self {
-		Cur { b, p: 0 }
+		Cur { pre: [0; 5], np: 0, b, p: 0 }
 	}
-	pub fn byte(&mut self) -> Option<u8> {
-		if self.p < self.b.len() {
-			let x = self.b[self.p];
-			self.p += 1;
-			Some(x)
+	pub fn with_count(c: u32, b: &'a [u8]) -> Self {
+		let (pre, np) = compact5(c);
+		Cur { pre, np, b, p: 0 }
+	}
+	pub fn total(&self) -> usize {
+		self.np + self.b.len()
+	}
+	pub fn peek(&self, i: usize) -> Option<u8> {
+		let q = self.p + i;
+		if q < self.np {
+			Some(self.pre[q])
+		} else if q - self.np < self.b.len() {
+			Some(self.b[q - self.np])
 		} else {
 			None
 		}
 	}
+	pub fn byte(&mut self) -> Option<u8> {
+		let x = self.peek(0)?;
+		self.p += 1;
+		Some(x)
+	}
+	/// payload bytes consumed so far (prefix excluded)
+	pub fn used_payload(&self) -> usize {
+		if self.p > self.np {
+			self.p - self.np
+		} else {
+			0
+		}
+	}
 	pub fn compact(&mut self, w: u32) -> Option<u128> {
-		let (v, n) = compact_decode(&self.b[self.p..], w)?;
-		self.p += n;
+		let first = self.peek(0)?;
+		let n = match first & 3 {
+			0 => 1usize,
+			1 => 2,
+			2 => 4,
+			_ => 5 + (first >> 2) as usize,
+		};
+		if n > 17 {
+			return None;
+		}
+		let mut tmp = [0u8; 17];
+		let mut k = 0;
+		while k < n {
+			tmp[k] = self.peek(k)?;
+			k += 1;
+		}
+		let (v, used) = compact_decode(&tmp[..n], w)?;
+		self.p += used;
 		Some(v)
 	}
 }
@@ -490,7 +525,8 @@ pub fn enc_seq<'a, T: Spec + 'a, I: Iterator<Item = &'a T>, const N: usize>(
 	}
 }
 pub fn dec_seq_n<T: Spec>(c: &mut Cur, n: usize) -> Option<Vec<T>> {
-	let mut v = Vec::with_capacity(n);
+	// never trust the count for the model's own allocation either
+	let mut v = Vec::with_capacity(if n < 8 { n } else { 8 });
 	let mut i = 0;
 	while i < n {
 		v.push(T::spec_dec(c)?);
